@@ -1079,6 +1079,7 @@ theorem inv_step {cfg : Cfg E} (hfr : Frame cfg) (hrc : cfg.repConfirm = true) (
   | apiWrite p v => exact inv_apiWrite hfr s s' p v hI h
   | enable p => exact inv_enable hrf s s' p hI h
   | disable p => exact inv_disable hrf s s' p hI h
+  | hookDone p => simp only [step?, Option.some.injEq] at h; subst h; exact hI
   | setExpr p e => exact inv_setExpr hfr s s' p e hI h
   | clearExpr p => exact inv_clearExpr hfr s s' p hI h
 
